@@ -121,3 +121,135 @@ theorem sorted_entries_keys (T W : Int) (ns : List Node) :
   exact List.map_mergeSort (fun a _ b _ => entryLe_eq a b)
 
 end KoordVerif.C02
+
+namespace KoordVerif.C02
+
+/-! ### the delta a sibling receives, as a function of the sibling (not of its slice position) -/
+
+def residualOf (T W : Int) (ns : List Node) : Int := T - (ns.map (baseOf T W)).sum
+
+def deltaFn (T W : Int) (ns : List Node) (n : Node) : Int :=
+  if W ≤ 0 ∨ T ≤ 0 ∨ ns = [] then 0 else
+  if residualOf T W ns ≤ 0 ∨ ns.filter posW = [] then baseOf T W n else
+  baseOf T W n +
+    if 0 < n.weight ∧ nodeKey T W n ∈ (sortedKeys T W ns).take (residualOf T W ns).toNat then 1 else 0
+
+theorem entries_nil_iff (T W : Int) (ns : List Node) : entriesFrom T W 0 ns = [] ↔ ns.filter posW = [] := by
+  have h := entriesFrom_map_key T W 0 ns
+  constructor
+  · intro h0; rw [h0] at h; simpa using h.symm
+  · intro h0; rw [h0] at h; simpa using h
+
+def NamesNodup (ns : List Node) : Prop := (ns.map (·.name)).Nodup
+
+theorem names_inj (ns : List Node) (hnd : NamesNodup ns) (j k : Nat) (hj : j < ns.length) (hk : k < ns.length)
+    (h : ns[j].name = ns[k].name) : j = k := by
+  unfold NamesNodup List.Nodup at hnd
+  have hp := List.pairwise_iff_getElem.mp hnd
+  by_cases hlt : j < k
+  · exact absurd (by rw [List.getElem_map, List.getElem_map]; exact h) (hp j k (by simpa using hj) (by simpa using hk) hlt)
+  · by_cases hgt : k < j
+    · exact absurd (by rw [List.getElem_map, List.getElem_map]; exact h.symm) (hp k j (by simpa using hk) (by simpa using hj) hgt)
+    · omega
+
+/-- `computeHamiltonDeltas` gives the sibling at position `j` exactly `deltaFn` of that sibling. -/
+theorem hamilton_getElem (T W : Int) (ns : List Node) (hnd : NamesNodup ns) (j : Nat) (hj : j < ns.length) :
+    (hamilton T W ns)[j]'(by rw [hamilton_length]; exact hj) = deltaFn T W ns ns[j] := by
+  have key : ∀ (l : List Int) (hl : l = hamilton T W ns),
+      l[j]'(by rw [hl, hamilton_length]; exact hj) = deltaFn T W ns ns[j] := by
+    intro l hl
+    unfold hamilton at hl
+    unfold deltaFn
+    split at hl
+    · rename_i hc; rw [if_pos hc]; subst hl; simp
+    · rename_i hc
+      rw [if_neg hc]
+      simp only [] at hl
+      split at hl
+      · rename_i hr
+        have hr' : residualOf T W ns ≤ 0 ∨ ns.filter posW = [] := by
+          rcases hr with h | h
+          · left; exact h
+          · right; exact (entries_nil_iff T W ns).mp h
+        rw [if_pos hr']; subst hl; simp
+      · rename_i hr
+        have hr' : ¬ (residualOf T W ns ≤ 0 ∨ ns.filter posW = []) := by
+          intro h; apply hr
+          rcases h with h | h
+          · left; exact h
+          · right; exact (entries_nil_iff T W ns).mpr h
+        rw [if_neg hr']
+        unfold residualOf
+        subst hl
+        have hjb : j < (ns.map (baseOf T W)).length := by simp; exact hj
+        have hnd' : (((entriesFrom T W 0 ns).mergeSort entryLe |>.take (T - (ns.map (baseOf T W)).sum).toNat).map (·.index)).Nodup := by
+          rw [List.map_take]
+          apply List.Nodup.sublist (List.take_sublist _ _)
+          exact ((List.mergeSort_perm (entriesFrom T W 0 ns) entryLe).map (·.index)).nodup_iff.mpr
+            (entriesFrom_index_nodup T W 0 ns)
+        rw [foldl_bump_getElem _ hnd' _ j hjb]
+        simp only [List.getElem_map]
+        congr 1
+        -- membership of the index  ⟺  membership of the key
+        have hS := sorted_entries_keys T W ns
+        have htake : (((entriesFrom T W 0 ns).mergeSort entryLe).take (T - (ns.map (baseOf T W)).sum).toNat).map keyOf
+            = (sortedKeys T W ns).take (T - (ns.map (baseOf T W)).sum).toNat := by
+          rw [List.map_take, hS]
+        have hiff : (j ∈ (((entriesFrom T W 0 ns).mergeSort entryLe).take (T - (ns.map (baseOf T W)).sum).toNat).map (·.index)) ↔
+            (0 < ns[j].weight ∧ nodeKey T W ns[j] ∈ (sortedKeys T W ns).take (T - (ns.map (baseOf T W)).sum).toNat) := by
+          constructor
+          · intro hmem
+            obtain ⟨e, he, hej⟩ := List.mem_map.mp hmem
+            have he' : e ∈ entriesFrom T W 0 ns :=
+              (List.mergeSort_perm _ entryLe).mem_iff.mp ((List.take_sublist _ _).subset he)
+            obtain ⟨k, hk, h1, h2, h3⟩ := entriesFrom_char T W 0 ns e he'
+            have hkj : k = j := by omega
+            subst hkj
+            refine ⟨h2, ?_⟩
+            rw [← htake, ← h3]
+            exact List.mem_map.mpr ⟨e, he, rfl⟩
+          · rintro ⟨hw, hmem⟩
+            rw [← htake] at hmem
+            obtain ⟨e, he, hek⟩ := List.mem_map.mp hmem
+            have he' : e ∈ entriesFrom T W 0 ns :=
+              (List.mergeSort_perm _ entryLe).mem_iff.mp ((List.take_sublist _ _).subset he)
+            obtain ⟨k, hk, h1, h2, h3⟩ := entriesFrom_char T W 0 ns e he'
+            have hname : ns[k].name = ns[j].name := by
+              have : keyOf e = nodeKey T W ns[j] := hek
+              rw [h3] at this
+              simpa [nodeKey] using congrArg Prod.snd this
+            have hkj := names_inj ns hnd k j hk hj hname
+            subst hkj
+            exact List.mem_map.mpr ⟨e, he, by omega⟩
+        by_cases hm : j ∈ (((entriesFrom T W 0 ns).mergeSort entryLe).take (T - (ns.map (baseOf T W)).sum).toNat).map (·.index)
+        · rw [if_pos hm, if_pos (hiff.mp hm)]
+        · rw [if_neg hm, if_neg (fun h => hm (hiff.mpr h))]
+  exact key _ rfl
+
+theorem hamilton_eq_map (T W : Int) (ns : List Node) (hnd : NamesNodup ns) :
+    hamilton T W ns = ns.map (deltaFn T W ns) := by
+  apply List.ext_getElem
+  · rw [hamilton_length]; simp
+  · intro i h1 h2
+    have hi : i < ns.length := by rw [hamilton_length] at h1; exact h1
+    rw [hamilton_getElem T W ns hnd i hi]
+    simp
+
+theorem deltaFn_perm (T W : Int) {ns₁ ns₂ : List Node} (h : ns₁.Perm ns₂) :
+    deltaFn T W ns₁ = deltaFn T W ns₂ := by
+  funext n
+  unfold deltaFn residualOf
+  have h1 : (ns₁ = []) ↔ (ns₂ = []) := by
+    constructor
+    · intro e; subst e; exact List.Perm.eq_nil h.symm
+    · intro e; subst e; exact List.Perm.eq_nil h
+  have h2 : (ns₁.map (baseOf T W)).sum = (ns₂.map (baseOf T W)).sum := perm_sum_int (h.map _)
+  have h3 : (ns₁.filter posW = []) ↔ (ns₂.filter posW = []) := by
+    have hp := h.filter posW
+    constructor
+    · intro e; rw [e] at hp; exact List.Perm.eq_nil hp.symm
+    · intro e; rw [e] at hp; exact List.Perm.eq_nil hp
+  have h4 := sortedKeys_perm T W h
+  simp only [h1, h2, h3, h4]
+
+end KoordVerif.C02
